@@ -107,9 +107,13 @@ pub assume_specification<P: core::convert::AsRef<std::path::Path>>[ std::path::P
 pub assume_specification[ std::path::Path::exists ](p: &std::path::Path) -> (r: bool)
     ensures r == fs_exists(path_str(p));
 
-pub assume_specification[ std::path::Path::metadata ](p: &std::path::Path) -> (r: Result<std::fs::Metadata, std::io::Error>);
+/// ASSUMPTION: the file system does not change while one request is handled: `metadata().len()` is a function of the path
+pub uninterp spec fn meta_len(m: std::fs::Metadata) -> u64;
+pub assume_specification[ std::path::Path::metadata ](p: &std::path::Path) -> (r: Result<std::fs::Metadata, std::io::Error>)
+    ensures r is Ok ==> meta_len(r->Ok_0) == fs_len(path_str(p));
 
-pub assume_specification[ std::fs::Metadata::len ](m: &std::fs::Metadata) -> (r: u64);
+pub assume_specification[ std::fs::Metadata::len ](m: &std::fs::Metadata) -> (r: u64)
+    ensures r == meta_len(*m);
 
 pub assume_specification<'a>[ std::path::Path::display ](p: &'a std::path::Path) -> (r: std::path::Display<'a>);
 
@@ -406,6 +410,13 @@ pub open spec fn recv_view(r: Result<Packet, Box<dyn std::error::Error>>) -> Opt
     }
 }
 
+pub open spec fn recv_from_view(r: Result<(Packet, std::net::SocketAddr), Box<dyn std::error::Error>>) -> Option<(PktV, std::net::SocketAddr)> {
+    match r {
+        Ok((p, a)) => Some((pkt_view(p), a)),
+        Err(_) => None,
+    }
+}
+
 /// Ghost record of one transfer (one `Worker` run).  It is threaded through every function that can
 /// emit; the weaver pushes onto `ev` in front of every call of a leaf `Socket::send` and updates the
 /// receive fields behind every receive call.
@@ -616,11 +627,95 @@ pub tracked struct STrace {
     /// length of `ev` when the datagram being handled was received, and that datagram (`None`: nothing decodable)
     pub ghost iter_start: nat,
     pub ghost cur: Option<(PktV, std::net::SocketAddr)>,
+    /// whether the source of that datagram owned a transfer (single-port mode) when it arrived
+    pub ghost known: bool,
 }
 
 /// exactly one datagram: ERROR `code` to `to` from the listening socket, nothing else
 pub open spec fn refusal(evs: Seq<SEv>, code: ErrorCode, to: std::net::SocketAddr) -> bool {
     evs.len() == 1 && (evs[0] matches SEv::SentTo { pkt: PktV::Error { code: c, .. }, to: t } && c == code && t == to)
+}
+
+/// the settings a transfer is started with
+pub struct Settings { pub blk: usize, pub tmo_nanos: nat, pub ws: u16 }
+
+/// SPECIFICATION (C09): settings = requested values, RFC 1350 defaults otherwise
+pub open spec fn settings_of(opts: Seq<TransferOption>) -> Settings {
+    Settings {
+        blk: opt_or(opt_last(opts, OptionType::BlockSize), 512),
+        tmo_nanos: (opt_or(opt_last(opts, OptionType::Timeout), 5) * 1000000000) as nat,
+        ws: opt_or(opt_last(opts, OptionType::Windowsize), 1) as u16,
+    }
+}
+
+/// SPECIFICATION (C09): the reply that opens an accepted transfer: OACK echoing the request's options (tsize =
+/// true file size on a read) iff there is at least one recognised option; otherwise ACK 0 for a write, nothing for a read
+pub open spec fn handshake_ok(evs: Seq<SEv>, req_opts: Seq<TransferOption>, read_size: Option<u64>) -> bool {
+    if req_opts.len() > 0 {
+        evs.len() == 1 && (evs[0] matches SEv::Sent { pkt: PktV::Oack(o) } && o =~= opts_echo(req_opts, read_size))
+    } else if read_size is None {
+        evs.len() == 1 && evs[0] == (SEv::Sent { pkt: PktV::Ack(0) })
+    } else {
+        evs.len() == 0
+    }
+}
+
+/// SPECIFICATION (C03, C09, C16): the one transfer an accepted request starts
+pub open spec fn spawn_ok(e: SEv, kind: XferKind, path: Seq<char>, clean: bool, dup: u8, req_opts: Seq<TransferOption>) -> bool {
+    e matches SEv::Spawned { kind: k, path: p, blk, tmo, ws, rep, check, clean: c }
+    && k == kind && p == path && c == clean && rep == dup + 1
+    && blk == settings_of(req_opts).blk && ws == settings_of(req_opts).ws && dur_nanos(tmo) == settings_of(req_opts).tmo_nanos
+    && 8 <= blk <= 65464 && ws >= 1 && 1000000000 <= dur_nanos(tmo) <= 255 * 1000000000
+    && (kind is Send ==> check == (req_opts.len() > 0))
+}
+
+/// effects of a request that passed the access checks: the handshake datagram(s) on the transfer socket, then
+/// the spawn -- or, when something failed on the way (socket error, unhonourable option value), a prefix of
+/// that with NO spawn.  Nothing is sent from the listening socket, nothing is routed.
+pub open spec fn accepted_ok(evs: Seq<SEv>, kind: XferKind, path: Seq<char>, clean: bool, dup: u8, req_opts: Seq<TransferOption>, read_size: Option<u64>, ok: bool) -> bool {
+    let n_hs: int = if req_opts.len() > 0 || read_size is None { 1 } else { 0 };
+    &&& evs.len() <= n_hs + 1
+    &&& (evs.len() >= n_hs && n_hs == 1 ==> handshake_ok(evs.subrange(0, 1), req_opts, read_size))
+    &&& (evs.len() < n_hs + 1 ==> (forall|i: int| 0 <= i < evs.len() ==> #[trigger] evs[i] is Sent))
+    &&& (evs.len() == n_hs + 1 ==> spawn_ok(evs[n_hs], kind, path, clean, dup, req_opts) && opts_valid(req_opts))
+    &&& (ok ==> evs.len() == n_hs + 1)
+    &&& (!opts_valid(req_opts) ==> evs.len() == 0)
+}
+
+/// SPECIFICATION of a read request's outcome (C03, C06, C09)
+pub open spec fn rrq_ok(evs: Seq<SEv>, dir: Seq<char>, clean: bool, dup: u8, filename: Seq<char>, req_opts: Seq<TransferOption>, to: std::net::SocketAddr, ok: bool) -> bool {
+    let path = join_str(dir, convert_spec(filename));
+    if !path_confined(path, dir) { refusal(evs, ErrorCode::AccessViolation, to) }
+    else if !fs_exists(path) { refusal(evs, ErrorCode::FileNotFound, to) }
+    else { accepted_ok(evs, XferKind::Send, path, clean, dup, req_opts, Some(fs_len(path)), ok) }
+}
+
+/// SPECIFICATION of a write request's outcome when the server is writable (C03, C06, C09)
+pub open spec fn wrq_ok(evs: Seq<SEv>, dir: Seq<char>, overwrite: bool, clean: bool, dup: u8, filename: Seq<char>, req_opts: Seq<TransferOption>, to: std::net::SocketAddr, ok: bool) -> bool {
+    let path = join_str(dir, convert_spec(filename));
+    if !path_confined(path, dir) { refusal(evs, ErrorCode::AccessViolation, to) }
+    else if fs_exists(path) && !overwrite { refusal(evs, ErrorCode::FileExists, to) }
+    else { accepted_ok(evs, XferKind::Receive, path, clean, dup, req_opts, None, ok) }
+}
+
+pub struct ServerCfg { pub send_dir: Seq<char>, pub recv_dir: Seq<char>, pub read_only: bool, pub overwrite: bool, pub clean: bool, pub dup: u8 }
+
+/// SPECIFICATION of the listener (C05, C06, C12, with C03/C09 through rrq_ok / wrq_ok): everything one received
+/// datagram may cause.  `cur` = the decoded datagram and its source (None: receive error or undecodable),
+/// `known` = the source owns a running single-port transfer, `evs` = the effects.
+pub open spec fn listen_iter_ok(evs: Seq<SEv>, cur: Option<(PktV, std::net::SocketAddr)>, known: bool, c: ServerCfg) -> bool {
+    match cur {
+        None => evs.len() == 0,
+        Some((PktV::Rrq { filename, mode, options }, from)) =>
+            rrq_ok(evs, c.send_dir, c.clean, c.dup, filename, options, from, true) || rrq_ok(evs, c.send_dir, c.clean, c.dup, filename, options, from, false),
+        Some((PktV::Wrq { filename, mode, options }, from)) =>
+            if c.read_only { refusal(evs, ErrorCode::AccessViolation, from) }
+            else { wrq_ok(evs, c.recv_dir, c.overwrite, c.clean, c.dup, filename, options, from, true) || wrq_ok(evs, c.recv_dir, c.overwrite, c.clean, c.dup, filename, options, from, false) },
+        Some((p, from)) =>
+            // forwarded to the transfer owned by its own source endpoint and to nobody else; an endpoint that owns no
+            // transfer (or whose transfer has ended) is answered with ERROR 4
+            (known && evs.len() == 1 && evs[0] == (SEv::Routed { pkt: p, to: from })) || refusal(evs, ErrorCode::IllegalOperation, from),
+    }
 }
 
 /// distance on the wire from block number `bn` forward to `a`
